@@ -13,8 +13,7 @@ import BluetoeModel.AttDiscovery.PropsEnum
   (continue behind the end group handle) therefore returns every primary service in range exactly
   once, in order, with NO uniformity condition (the handler stops at a size change instead of
   skipping).  Together with `read_by_group_only_primary` (soundness) this is "exactly".
-  Find By Type Value: soundness only (`find_by_type_value_only_primary`); its completeness is not
-  proved (monitor only).
+  Find By Type Value: completeness and enumeration are in `PropsFind.lean`.
 -/
 namespace BluetoeModel.AttDiscovery
 open BluetoeModel.AttHandles
